@@ -376,6 +376,11 @@ get_fptr(FunctionWrapperIndex wrapper) {
  */
 FunctionWrapperIndex InterrogateDatabase::
 get_wrapper_by_unique_name(const string &unique_name) {
+  // A name too short to contain a library_hash_name cannot be found.
+  if (unique_name.size() < 4) {
+    return 0;
+  }
+
   // First, split the unique_name into a library_hash_name and a
   // wrapper_hash_name.
 
